@@ -1,4 +1,5 @@
 import DEvo.Props.C01
+import DEvo.Generated.Tables
 
 /-! # C15 — purging and deleting remove exactly what was named, nothing else -/
 
@@ -78,5 +79,63 @@ def bookModel : ModelSig :=
 /-- prefix table names are different tables: the owned tables of `a_book` are `a_book` and
 `a_book_tags`, not `a_book_extra` -/
 example : tablesOf bookModel = ["a_book", "a_book_tags"] ∧ "a_book_extra" ∉ tablesOf bookModel := by decide
+
+/-! ## the purge's clean-up of the stored signature -/
+
+/-- what `PurgeAppTask.prepare` does to the signature after the app's models were deleted: `own` removes the
+purged app's entry when it is empty; `allEmpty` (a seeded variant) removes every empty entry -/
+inductive Cleanup where
+  | own | allEmpty | nothing
+  deriving DecidableEq, Repr
+
+def purgeCleanup (mode : Cleanup) (p : ProjectSig) (label : String) : ProjectSig :=
+  match mode with
+  | .own => match p.apps.find? (fun a => a.id == label) with
+    | some a => if a.models.isEmpty then p.removeApp a.id else p
+    | none => p
+  | .allEmpty => { apps := p.apps.filter (fun a => !a.models.isEmpty) }
+  | .nothing => p
+
+/-- **a purge touches no other app's entry**: whatever the purged app and the rest of the project look like,
+every entry of another app - empty ones included - is still there, unchanged, after the clean-up -/
+theorem C15_purge_frame (p : ProjectSig) (label : String) (b : AppSig) (hb : b ∈ p.apps) (hne : b.id ≠ label) :
+    b ∈ (purgeCleanup .own p label).apps := by
+  unfold purgeCleanup
+  cases hf : p.apps.find? (fun a => a.id == label) with
+  | none => exact hb
+  | some a =>
+    have ha : a.id = label := by
+      have := List.find?_some hf
+      simpa using this
+    by_cases he : a.models.isEmpty = true
+    · simp only [he, if_true, ProjectSig.removeApp, List.mem_filter]
+      refine ⟨hb, ?_⟩
+      simp only [Bool.not_eq_true', beq_eq_false_iff_ne, ne_eq]
+      rw [ha]; exact hne
+    · simp only [he]
+      exact hb
+
+/-- ... and nothing is added -/
+theorem C15_purge_no_new_entries (p : ProjectSig) (label : String) (b : AppSig)
+    (hb : b ∈ (purgeCleanup .own p label).apps) : b ∈ p.apps := by
+  unfold purgeCleanup at hb
+  cases hf : p.apps.find? (fun a => a.id == label) with
+  | none => simpa [hf] using hb
+  | some a =>
+    simp only [hf] at hb
+    by_cases he : a.models.isEmpty = true
+    · simp only [he, if_true, ProjectSig.removeApp, List.mem_filter] at hb
+      exact hb.1
+    · simpa [he] using hb
+
+/-- the clean-up of the current source is the `own` one (read by the translator on every run) -/
+theorem C15_source_purge_cleanup : DEvo.Generated.purgeCleanup = "own" := by decide
+
+/-- removing every empty entry loses the entry of an installed app that has no models (any more) -/
+theorem C15_cex_all_empty_entries_removed :
+    let keep : AppSig := { id := "shop", legacy := "shop", upgradeMethod := some "evolutions", appliedMigrations := none, models := [] }
+    let gone : AppSig := { id := "old", legacy := "old", upgradeMethod := some "evolutions", appliedMigrations := none, models := [] }
+    keep ∉ (purgeCleanup .allEmpty ⟨[keep, gone]⟩ "old").apps ∧ keep ∈ (purgeCleanup .own ⟨[keep, gone]⟩ "old").apps := by
+  decide
 
 end DEvo.Props.C15
